@@ -10,8 +10,8 @@ ID = "C08"
 COQ_IMPORT = "Corr.CNodes"
 COQ_CASE_TYPE = "g_case"
 COQ_CHECK = "g_check"
-THEOREMS = ["c08_flatten_recomputed", "c08_pool_recomputed", "c08_loop_terminates"]
-PROOF_FILES = ["Proofs/NodesProofs.v", "Proofs/InferProofs.v", "Proofs/ShapesProofs.v"]
+THEOREMS = ["c08_step_restores", "c08_worklist_covers_reachable", "c08_infer_restores", "c08_infer_then_check", "c08_hypotheses_checkable", "c08_flatten_recomputed"]
+PROOF_FILES = ["Proofs/RestoreProofs.v", "Proofs/InferProofs.v", "Proofs/NodesProofs.v", "Proofs/ShapesProofs.v", "Proofs/GraphProofs.v"]
 RULE = ("random CONSISTENT graphs built forwards from 1-2 Inputs by an independent Python shape oracle "
         "(chains, fan-out, fan-in with equal shapes, residual/recurrent/self-loop/parallel edges, shuffled edge "
         "and node order), 1-14 nodes over all primitives incl. conv->pool->flatten->dense stacks; erasure of a "
